@@ -212,7 +212,12 @@ func (u *UserHash) writeHashStr(password string, isAdmin bool, mayCreate bool) e
 	}
 
 	// Flush the move to disk
-	dir, err := os.Open(filepath.Dir(file.Name()))
+	return syncDir(filepath.Dir(file.Name()))
+}
+
+// syncDir flushes changes of the directory's entries (create, rename, unlink) to disk.
+func syncDir(path string) error {
+	dir, err := os.Open(path)
 	if err != nil {
 		return err
 	}
@@ -269,7 +274,11 @@ func (u *UserHash) SetAdmin(adminState bool) error {
 		oldname += adminExt
 		newname += userExt
 	}
-	return os.Rename(oldname, newname)
+	if err := os.Rename(oldname, newname); err != nil {
+		return err
+	}
+	// Flush the move to disk
+	return syncDir(u.store.BaseDir)
 }
 
 // Remove deletes hash file.
@@ -280,6 +289,8 @@ func (u *UserHash) Remove() {
 	filename := filepath.Join(u.store.BaseDir, u.user)
 	os.Remove(filename + adminExt) //nolint:errcheck
 	os.Remove(filename + userExt)  //nolint:errcheck
+	// Flush the removal to disk
+	syncDir(u.store.BaseDir) //nolint:errcheck
 }
 
 // Exists checks if user exists. It also returns whether user is an admin. This returns true even if
